@@ -1511,6 +1511,19 @@ class AbsInt:
             segs = list(base.segs)
             lo_ = lo or 0
             hi_ = hi if hi is not None else 0
+            if lo_ == 0 and hi_ > 0:
+                # a prefix: known when the text starts with that many literal characters
+                if not segs:
+                    return ''
+                if isinstance(segs[0], str) and len(segs[0]) >= hi_:
+                    return segs[0][:hi_]
+                return Opaque('prefix of symbolic text')
+            if lo_ < 0 and hi is None:
+                if not segs:
+                    return ''
+                if isinstance(segs[-1], str) and len(segs[-1]) >= -lo_:
+                    return segs[-1][lo_:]
+                return Opaque('suffix of symbolic text')
             if lo_ < 0 or hi_ > 0:
                 return Opaque('slice of symbolic text')
             if lo_:
@@ -2133,6 +2146,35 @@ class AbsInt:
         if isinstance(v, bool):
             names = unparse(node.args[1])
             return 'Integral' in names or 'int' in names or 'Real' in names or 'bool' in names
+        if isinstance(v, AList) and v.kind in ('list', 'tuple', 'bytes', 'bytearray', 'set', 'frozenset') or isinstance(v, (list, tuple)):
+            # precise for the builtin container kinds
+            mine = {'list': list, 'tuple': tuple, 'bytes': bytes, 'bytearray': bytearray, 'set': set, 'frozenset': frozenset}[v.kind] \
+                if isinstance(v, AList) else type(v)
+            cands = list(t) if isinstance(t, (tuple, list)) else (list(t.items) if isinstance(t, AList) else [t])
+            verdicts = []
+            for c in cands:
+                if isinstance(c, type):
+                    verdicts.append(issubclass(mine, c))
+                elif isinstance(c, ExtRef):
+                    last = c.name.split('.')[-1]
+                    if last in ('Iterable', 'Sequence', 'Collection', 'Sized', 'Container', 'Reversible'):
+                        verdicts.append(last != 'Sequence' and last != 'Reversible' or mine not in (set, frozenset))
+                    elif last in ('Mapping', 'MutableMapping', 'Integral', 'Real', 'Number', 'str', 'Hashable'):
+                        verdicts.append(False if last != 'Hashable' else mine in (tuple, bytes, frozenset))
+                    elif last in ('MutableSequence',):
+                        verdicts.append(mine in (list, bytearray))
+                    elif last in ('ByteString',):
+                        verdicts.append(mine in (bytes, bytearray))
+                    else:
+                        verdicts.append(None)
+                elif isinstance(c, ClassRef):
+                    verdicts.append(False)
+                else:
+                    verdicts.append(None)
+            if any(x is True for x in verdicts):
+                return True
+            if verdicts and all(x is False for x in verdicts):
+                return False
         if isinstance(v, (list, tuple, AList, ADict, dict)):
             names = unparse(node.args[1])
             if not any(k in names for k in ('list', 'tuple', 'dict', 'Sequence', 'Iterable', 'Mapping', 'bytearray')):
@@ -2300,6 +2342,27 @@ class AbsInt:
                     return base.items.pop(*[a for a in args if isinstance(a, int)])
                 except IndexError:
                     raise AbsRaise('IndexError', node, implicit=True)
+            if name in ('find', 'index', 'count') and len(args) == 1 and not base.has_var():
+                needle = args[0]
+                if isinstance(needle, (bytes, bytearray)) and len(needle) == 1:
+                    needle = needle[0]
+                hits = 0
+                for i, it in enumerate(base.items):
+                    r = self.compare(ast.Eq(), it, needle, node)
+                    if r is None:
+                        return Opaque(f'{name} among symbolic items')
+                    if r:
+                        if name != 'count':
+                            return i
+                        hits += 1
+                if name == 'count':
+                    return hits
+                if name == 'find':
+                    return -1
+                raise AbsRaise('ValueError', node, implicit=True)
+            if name == 'clear':
+                base.items.clear()
+                return None
             return Opaque(f'list.{name}')
         if isinstance(base, (list,)) and name in ('append', 'extend'):
             if name == 'append':
